@@ -47,7 +47,9 @@ func init() {
 			"is dominated by lastAllocFrame <= end after the cursor update, the allocCount increment and the frame return are dominated by err == nil and the other return " +
 			"yields (InvalidFrame, errBootAllocOutOfMemory); (R3) frame condition of replay: AllocFrame and its visitor write only {allocCount, lastAllocFrame} and read only " +
 			"those plus the kernel range and the visited region, and the replay role zeroes exactly that write set after loading the bound from allocCount; (R4) every cursor " +
-			"update is kernelEndFrame+1, the region start, or lastAllocFrame+1.",
+			"update is kernelEndFrame+1, the region start, or lastAllocFrame+1; (R5) the kernel image is stepped over: the update lastAllocFrame+1 is unreachable once the edges " +
+			"`lastAllocFrame+1 != kernelStartFrame` and `lastAllocFrame > regionEndFrame` are removed, and the update to the region start is unreachable once `kernelStartFrame != " +
+			"regionStartFrame` and `lastAllocFrame > regionStartFrame` are removed (cut form of the kernel-jump conditions).",
 		EnumRule: "obligations per rule and construct",
 		Assumptions: []string{"strict monotonicity and the kernel-jump case analysis are relational facts over four variables and are not decided"},
 		Controls: []Control{
@@ -60,6 +62,8 @@ func init() {
 			{Name: "sub-page regions accepted", File: "kernel/mm/pmm/bootmem_allocator.go", Old: "if region.Type != multiboot.MemAvailable || region.Length < uint64(mm.PageSize) {", New: "if region.Type != multiboot.MemAvailable {", Expect: "C02.R1"},
 			{Name: "cursor skips a frame", File: "kernel/mm/pmm/bootmem_allocator.go", Old: "\t\t\talloc.lastAllocFrame++\n", New: "\t\t\talloc.lastAllocFrame += 2\n", Expect: "C02.R4"},
 			{Name: "success returned on out of memory", File: "kernel/mm/pmm/bootmem_allocator.go", Old: "\tif err != nil {\n\t\treturn mm.InvalidFrame, errBootAllocOutOfMemory\n\t}\n", New: "\tif err != nil && alloc.allocCount == 0 {\n\t\treturn mm.InvalidFrame, errBootAllocOutOfMemory\n\t}\n", Expect: "C02.R2"},
+			{Name: "kernel jump only when the cursor is past the region start", File: "kernel/mm/pmm/bootmem_allocator.go", Old: "(alloc.lastAllocFrame <= regionEndFrame && alloc.lastAllocFrame+1 == alloc.kernelStartFrame) {", New: "(alloc.lastAllocFrame > regionStartFrame && alloc.lastAllocFrame+1 == alloc.kernelStartFrame) {", Expect: "C02.R5"},
+			{Name: "kernel at the region start not skipped", File: "kernel/mm/pmm/bootmem_allocator.go", Old: "if (alloc.lastAllocFrame <= regionStartFrame && alloc.kernelStartFrame == regionStartFrame) ||", New: "if (alloc.lastAllocFrame < regionStartFrame && alloc.kernelStartFrame == regionStartFrame) ||", Expect: "C02.R5"},
 			{Name: "end frame rounded up", File: "kernel/mm/pmm/bootmem_allocator.go", Old: "regionEndFrame := mm.Frame(((region.PhysAddress+region.Length) & ^pageSizeMinus1)>>mm.PageShift) - 1", New: "regionEndFrame := mm.Frame(((region.PhysAddress+region.Length+pageSizeMinus1) & ^pageSizeMinus1)>>mm.PageShift) - 1", Expect: "C02.R1"},
 		},
 	})
@@ -1047,6 +1051,65 @@ func runC02(c *Ctx) {
 	for k := range allowed {
 		if !kinds[k] {
 			c.fail("C02.R4", "cursor-update-kinds "+m.fnName(v), "no cursor update of the kind lastAllocFrame = "+k+" remains", m.pos(v.Pos()))
+		}
+	}
+	// ---- R5: the kernel image is stepped over (cut form of the kernel-jump conditions)
+	c.floor("C02.R5", 2)
+	kS := polyAtom("boot.kernelStartFrame")
+	for i, sn := range lastStores {
+		p := z.Of(g.Ins[sn].(*ssa.Store).Val)
+		var cutFacts func(f Fact) bool
+		var what, why string
+		switch {
+		case p.equal(la.add(polyConst(1), 1)):
+			what = "lastAllocFrame+1"
+			why = "the next frame is handed out although it is the first frame of the kernel image (lastAllocFrame+1 == kernelStartFrame inside this region)"
+			cutFacts = func(f Fact) bool {
+				if f.Y == nil {
+					return false
+				}
+				l, r := z.Of(f.X), z.Of(f.Y)
+				next := la.add(polyConst(1), 1)
+				if f.Op == token.NEQ && (l.equal(next) && r.equal(kS) || r.equal(next) && l.equal(kS)) {
+					return true
+				}
+				// lastAllocFrame > regionEndFrame: the cursor is not in this region
+				return f.Op == token.GTR && l.equal(la) && r.equal(E) || f.Op == token.LSS && r.equal(la) && l.equal(E) ||
+					f.Op == token.GEQ && l.equal(la) && r.equal(x.E1) || f.Op == token.LEQ && r.equal(la) && l.equal(x.E1)
+			}
+		case p.equal(x.S):
+			what = "regionStartFrame"
+			why = "the first frame of the region is handed out although the kernel image starts there (kernelStartFrame == regionStartFrame)"
+			cutFacts = func(f Fact) bool {
+				if f.Y == nil {
+					return false
+				}
+				l, r := z.Of(f.X), z.Of(f.Y)
+				if f.Op == token.NEQ && (l.equal(kS) && r.equal(x.S) || r.equal(kS) && l.equal(x.S)) {
+					return true
+				}
+				// lastAllocFrame > regionStartFrame: the cursor is already inside the region
+				return f.Op == token.GTR && l.equal(la) && r.equal(x.S) || f.Op == token.LSS && r.equal(la) && l.equal(x.S)
+			}
+		default:
+			continue
+		}
+		var cut []Edge
+		for _, f := range g.AllEdgeFacts() {
+			if cutFacts(f) {
+				cut = append(cut, f.Edge)
+			}
+		}
+		key := fmt.Sprintf("kernel-stepped-over %s %s #%d", m.fnName(v), what, i)
+		if g.UnreachableWithout(sn, cut) {
+			c.ok("C02.R5", key, "the update is unreachable once the edges `next frame != kernelStartFrame` / `cursor outside this region` are removed", g.posOf(sn))
+		} else {
+			cm := map[Edge]bool{}
+			for _, e := range cut {
+				cm[e] = true
+			}
+			pth := g.Path([]int{0}, cm, nil, func(n int) bool { return n == sn })
+			c.fail("C02.R5", key, why, g.where(pth, 12)...)
 		}
 	}
 	for _, fs := range m.storesToField(x.lastAlloc) {
